@@ -176,7 +176,18 @@ func Pools() (good, bad []Stmt) {
 			}
 		}
 	}
-	poison := []string{"]", ")", "FROM", ",", "=", "'lit'", "42"}
+	// replacements: a token of another lexical class (a third of them per position, by rotation) ...
+	poison := []string{"]", ")", "FROM", ",", "=", "'lit'", "42", "x", "NULL", "(", "2.5", "*"}
+	// ... and, where an integer stands, the other forms a number token can take
+	numberForms := []string{"2.5", "1e3", "99999999999999999999", "0x1F"}
+	isInt := func(t string) bool {
+		for _, c := range t {
+			if c < '0' || c > '9' {
+				return false
+			}
+		}
+		return t != ""
+	}
 	for _, b := range append(append([]string{}, Base...), extra()...) {
 		add(b, "base")
 		lex := Lexemes(b)
@@ -197,6 +208,12 @@ func Pools() (good, bad []Stmt) {
 				}
 				rep := append(append(append([]string{}, lex[:k]...), p), lex[k+1:]...)
 				add(strings.Join(rep, " "), "replace@"+itoa(k))
+			}
+			if isInt(lex[k]) {
+				for _, p := range numberForms {
+					rep := append(append(append([]string{}, lex[:k]...), p), lex[k+1:]...)
+					add(strings.Join(rep, " "), "number-form@"+itoa(k))
+				}
 			}
 			add(strings.Join(lex[:k], " "), "truncate@"+itoa(k))
 		}
